@@ -88,9 +88,10 @@ impl<T: A2lObjectName> ItemList<T> {
     pub fn swap_remove(&mut self, key: &str) -> Option<T> {
         let index = self.map.remove(key)?;
         let item = self.items.swap_remove(index);
-        // the last item was swapped into the index, so we need to update the map
-        self.map
-            .insert(self.items[index].get_name().to_string(), index);
+        // if an item was swapped into the index, then the map needs to be updated
+        if let Some(swapped_item) = self.items.get(index) {
+            self.map.insert(swapped_item.get_name().to_string(), index);
+        }
         Some(item)
     }
 
@@ -100,9 +101,10 @@ impl<T: A2lObjectName> ItemList<T> {
             let item = self.items.swap_remove(index);
             // remove the item from the map
             self.map.remove(item.get_name());
-            // the last item was swapped into the index, so we need to update the map
-            self.map
-                .insert(self.items[index].get_name().to_string(), index);
+            // if an item was swapped into the index, then the map needs to be updated
+            if let Some(swapped_item) = self.items.get(index) {
+                self.map.insert(swapped_item.get_name().to_string(), index);
+            }
             Some(item)
         } else {
             None
